@@ -154,3 +154,51 @@ def bundles(model, info, art):
     except Exception as e:
         problems.append(f"{type(e).__name__}: {e}")
     return ("confirmed" if problems else "contradicted"), "; ".join(problems) or "bundling rules as documented"
+
+
+def configure(model, info, art):
+    """monitored + configured device: events after configure must reference the new descriptor"""
+    class Sig:
+        parent = None
+        name = "sig"
+        hints = {"fields": ["sig"]}
+
+        def __init__(self):
+            self.gain = 1
+            self.cb = None
+
+        def read(self):
+            return {"sig": {"value": 1.0, "timestamp": 1.0}}
+
+        def describe(self):
+            return {"sig": {"dtype": "number", "shape": [], "source": "s"}}
+
+        def read_configuration(self):
+            return {"gain": {"value": self.gain, "timestamp": 2.0}}
+
+        def describe_configuration(self):
+            return {"gain": {"dtype": "number", "shape": [], "source": "s"}}
+
+        def subscribe(self, cb, **kw):
+            self.cb = cb
+
+        def clear_sub(self, cb):
+            self.cb = None
+    sig = Sig()
+    bd, out = _bundler(False)
+
+    async def go():
+        await bd.open_run(Msg("open_run"))
+        await bd.monitor(Msg("monitor", sig, name="mon"))
+        sig.cb()
+        sig.gain = 20
+        await bd.configure(Msg("configure", sig))
+        sig.cb()
+    asyncio.run(go())
+    descs = [d for n, d in out if n == "descriptor" and d["name"] == "mon"]
+    evs = [d for n, d in out if n == "event"]
+    ok = (len(descs) == 2 and len(evs) == 2 and evs[0]["descriptor"] == descs[0]["uid"] and evs[1]["descriptor"] == descs[1]["uid"]
+          and descs[1]["configuration"]["sig"]["data"]["gain"] == 20 and [e["seq_num"] for e in evs] == [1, 2])
+    return ("contradicted" if ok else "confirmed"), (f"{len(descs)} 'mon' descriptors (gains {[d['configuration']['sig']['data']['gain'] for d in descs]}); "
+                                                     f"events reference {[descs.index(next(d for d in descs if d['uid'] == e['descriptor'])) for e in evs]} "
+                                                     f"with seq_nums {[e['seq_num'] for e in evs]}")
